@@ -172,7 +172,7 @@ def run(tier):
     tpath = os.path.join(wd, "trace.ndjson")
     with open(wpath, "w") as f:
         f.write("\n".join(lines) + "\n")
-    p = vp.run([drv, wpath, tpath], timeout=600)
+    p = vp.run([drv, wpath, tpath], timeout=600 if thorough else 240)
     if p.returncode not in (0, 3):
         raise vp.Broken("c15_driver rc=%d: %s" % (p.returncode, p.stderr[-500:]))
     events = vp.read_ndjson(tpath)
